@@ -582,6 +582,39 @@ Section Refinement.
   Lemma inv2_iter : forall k it t, inv2 t -> inv2 (oto_iter dfs nbs chl chr k it t).
   Proof. induction k; intros it t H; cbn [oto_iter]; [assumption|]. apply IHk. apply inv2_step. assumption. Qed.
 
+  (* the label of a class is a record of the same greedy cluster, not above any member *)
+  Definition Ninv (t : list reprow) : Prop :=
+    forall v c s, In (v, c, s) t -> G v = G c /\ c <= v /\ is_node nodes c = true.
+
+  Lemma Ninv_init : Ninv init.
+  Proof.
+    intros v c s Hin. unfold init, df_representatives in Hin. apply in_map_iff in Hin.
+    destruct Hin as [[n sn] [Heq Hn]]. unfold n_id, n_sds in Heq. cbn [fst snd] in Heq. inversion Heq; subst.
+    split; [reflexivity|]. split; [lia|]. apply is_node_true. eauto.
+  Qed.
+
+  Lemma Ninv_step : forall it t, inv2 t -> Ninv t -> Ninv (strip (oto_step dfs nbs chl chr it t)).
+  Proof.
+    intros it t [Hi HM] HN v c s Hin. pose proof Hi as (Hnd & _ & _).
+    apply strip_step_in in Hin. destruct Hin as [c0 [Hp ->]].
+    pose proof (new_rep_le dfs nbs chl chr it t v c0 s Hp) as Hle.
+    destruct (HN v c0 s Hp) as (HG0 & Hc0 & Hn0).
+    destruct (new_rep_cases dfs nbs chl chr it t Hnd v c0 s Hp) as [E1|(a & r & Ha & Hr' & Hn & Hb & Hrep)].
+    - rewrite E1. auto.
+    - destruct r as [[y cy] sy]. unfold rr_node, rr_rep in *. cbn [fst snd] in *. rewrite <- Hrep.
+      destruct (HN y cy sy Hr') as (HGy & _ & Hny). split; [|split; [lia|assumption]].
+      rewrite <- HGy, <- Hn, <- Hb. apply (accepted_same_G it t Hnd (recs_of_inv t Hi) HM). exact Ha.
+  Qed.
+
+  Lemma Ninv_loop : forall fuel it t out,
+    inv2 t -> Ninv t -> oto_loop dfs nbs chl chr fuel it t = Some out -> Ninv out.
+  Proof.
+    induction fuel; intros it t out Hi HN H; cbn [oto_loop] in H; [discriminate|].
+    destruct (Nat.eqb _ 0).
+    - inversion H; subst. apply Ninv_step; assumption.
+    - eapply IHfuel; [| |exact H]; [apply inv2_step|apply Ninv_step]; assumption.
+  Qed.
+
   Section Exit.
     Variable fuel : nat.
     Variable out : list reprow.
@@ -640,6 +673,18 @@ Section Refinement.
       assert (cz = c) by (apply (proj2 (refines_greedy_exit z cz sz v c s Hcz Hv)); exact HGz).
       subst. assumption.
     Qed.
+    (* the cluster id is the least record of the cluster (and belongs to it) *)
+    Lemma cluster_id_is_min_exit : forall v c s, In (v, c, s) out ->
+      (exists sc, In (c, c, sc) out) /\ forall w s', In (w, c, s') out -> c <= w.
+    Proof.
+      intros v c s Hv. pose proof (Ninv_loop fuel 1 init out inv2_init Ninv_init Hloop) as HN.
+      destruct out_inv2 as [Hi HM]. pose proof (recs_of_inv out Hi) as Hrecs. split.
+      - destruct (HN v c s Hv) as (HG & _ & Hn). apply is_node_true in Hn. destruct Hn as [sc Hn].
+        destruct (proj1 (Hrecs _ _) Hn) as [c' Hc']. exists sc.
+        assert (c' = c) by (apply (proj2 (refines_greedy_exit c c' sc v c s Hc' Hv)); symmetry; exact HG).
+        subst. assumption.
+      - intros w s' Hw. apply (HN w c s' Hw).
+    Qed.
   End Exit.
 End Refinement.
 
@@ -661,6 +706,16 @@ Lemma connected_ranked : forall le, rank_order le -> forall dfs thr (chl chr : c
 Proof.
   intros le Hord dfs thr chl chr fuel nodes E out Hnd Htf Hl Hr Hloop.
   apply (connected_tiefree_exit dfs thr nodes E le Hord Hnd Htf chl chr Hl Hr fuel out Hloop).
+Qed.
+
+Lemma cluster_id_is_min_ranked : forall le, rank_order le -> forall dfs thr (chl chr : chooser) fuel nodes E out,
+  NoDup (map n_id nodes) -> strict_rank le E -> rank1_ok_for le chl -> rank1_ok_for le chr ->
+  oto_loop dfs (df_neighbours thr E) chl chr fuel 1 (df_representatives nodes) = Some out ->
+  forall v c s, In (v, c, s) out ->
+    (exists sc, In (c, c, sc) out) /\ forall w s', In (w, c, s') out -> c <= w.
+Proof.
+  intros le Hord dfs thr chl chr fuel nodes E out Hnd Htf Hl Hr Hloop.
+  apply (cluster_id_is_min_exit dfs thr nodes E le Hord Hnd Htf chl chr Hl Hr fuel out Hloop).
 Qed.
 
 (* order by match_probability desc, pairwise distinct probabilities *)
